@@ -164,6 +164,16 @@ def check(prop, tier, seed):
     for r in canaries:
         if r["status"] == "vacuous":
             broken.append("canary proved (contradictory path condition): %s" % r["name"])
+    # an unsupported construct on a branch that cannot be proved dead: the function is outside the verifier's reach on
+    # this tree -> not extracted (its bounded stand-in decides), never an alarm by itself
+    dead_fail = {func_of(r["name"]) for r in obligations if r["kind"] == "dead" and r["status"] != "discharged"}
+    if dead_fail:
+        for fn in sorted(dead_fail):
+            not_extracted.append({"function": fn, "reason": "reachable code outside the supported subset: " + "; ".join(
+                sorted({label_of(r["name"]).split("dead:")[-1] for r in obligations
+                        if r["kind"] == "dead" and r["status"] != "discharged" and func_of(r["name"]) == fn}))[:300]})
+        obligations = [r for r in obligations if func_of(r["name"]) not in dead_fail]
+        functions = [f for f in functions if f["function"].split("::")[1] not in dead_fail]
     discharged = [r for r in obligations if r["status"] == "discharged"]
     failed = [r for r in obligations if r["status"] != "discharged"]
     # baseline: a function whose shape still matches must not lose obligations
